@@ -203,6 +203,12 @@ Replay(ch, r) ==
   /\ Receive(ch, r, "replay")
   /\ UNCHANGED <<led, m2c, vbs, pend, issued, nonces, wire, closed, spent>>
 
+(* the same with the replayed reply named by (type, channel, state index): constant quantifier *)
+(* domains, so that TLC labels the transitions of the dumped state graph with the arguments     *)
+ReplayOf(ch, typ, rc, rk) ==
+  /\ rk < Len(led[rc])
+  /\ Replay(ch, Sig(MerOf(rc), MsgOf(typ, rc, rk), Bf(rc, rk, typ), TRUE))
+
 (* customer::Ready::start *)
 Start(ch, a) ==
   LET c == cust[ch]
@@ -360,7 +366,7 @@ Next ==
     \/ \E bal \in InitBals : Request(ch, bal)
     \/ Deliver(ch)
     \/ \E f \in FaultKinds : Fault(ch, f)
-    \/ \E r \in wire : Replay(ch, r)
+    \/ \E typ \in {"close", "token"}, rc \in Channels, rk \in 0..(MaxPays + 1) : ReplayOf(ch, typ, rc, rk)
     \/ \E a \in Amounts : Start(ch, a)
     \/ Close(ch)
     \/ Restore(ch)
